@@ -71,8 +71,12 @@ Definition obs (prov : list store) (q : query) : list Z :=
       end
   end.
 
+(* true iff the model reproduces the SDK's observations AND the case meets the hypotheses of the C07 theorems
+   (every root well-formed, ids distinct inside each store) *)
 Definition check_case (c : list store * list query * Z) : bool :=
-  let '(prov, qs, expected) := c in Z.eqb (hash_zll 0 (map (obs prov) qs)) expected.
+  let '(prov, qs, expected) := c in
+  Z.eqb (hash_zll 0 (map (obs prov) qs)) expected
+  && forallb (fun s => forallb wf_treeb s && nodup_strb (ids_of s)) prov.
 
 (* translator validation: the generated class tables evaluated for every class *)
 Definition class_table : list (list Z) :=
